@@ -15,7 +15,7 @@ EXPLANATION = (
     "checked with np.shares_memory and by writing into the copy. optimize() (real edges, max_iter=1; free-symbol edges, "
     "max_iter<=3 on all paths) leaves everything except vertex poses and vertices[0].fixed unchanged."
 )
-BOUNDS = "graphs: {SE2,SE2,R2}, {SE3,SE3,R3}, {R2,R2}, {R3,R3} with odometry + landmark + a custom numerically differentiated edge; 20 query kinds; one step (inductive)"
+BOUNDS = "graphs: {SE2,SE2,R2}, {SE3,SE3,R3}, {R2,R2}, {R3,R3} with odometry + landmark + a custom numerically differentiated edge; 20 query kinds; one step (inductive); optimize() frame cases incl. information matrices that are not symmetric; IEEE cases: bit-exact restore and bit-identical repeated numerical Jacobians (coordinates up to 1e11)"
 OUTSIDE = "bit-level floating point of everything except the numerical-differentiation restore (fp-restore cases: IEEE binary64 terms, bit-identical pose components); elsewhere equality is proved on exact real terms"
 ASSUMPTIONS = ["valid state: SE(2) angles in [-pi,pi), unit quaternions", "wrap / sqrt / trig contracts", "spsolve stub returns an arbitrary vector"]
 
